@@ -1,4 +1,5 @@
 //! Shared machinery: run context, subject guard, findings classification, evidence, parallel map.
+pub mod noderef;
 use serde_json::{json, Value};
 use std::collections::{BTreeMap, BTreeSet};
 use std::panic::{catch_unwind, AssertUnwindSafe};
